@@ -508,7 +508,7 @@ func runBrokerScenario(o *out, tag, replay string, gen func(r *rng) (plain, hook
 		var ghs []*history
 		for i := 0; i < 4; i++ {
 			q := r.fork(uint64(7000 + i))
-			ghs = append(ghs, compose(fmt.Sprintf("gl%d", i), q, []motif{gms[10], gms[6], gms[0]}, 2+q.intn(2), true))
+			ghs = append(ghs, compose(fmt.Sprintf("gl%d", i), q, []motif{gms[10], gms[6], gms[0], gms[12], gms[13]}, 2+q.intn(2), true))
 		}
 		gres := make([][]opResult, len(ghs))
 		gerrs := make([]error, len(ghs))
